@@ -149,11 +149,109 @@ def lin_stmt(node, active, names):
     raise OutsideModel(type(node).__name__)
 
 
+# ---------------------------------------------------------------------------------------------
+# MiniF export with array-section assignments expanded into elementwise statements
+def _const(node):
+    """integer value of a section bound: literals, +,-,*, unary minus, LBOUND/UBOUND of a declared literal bound"""
+    from psyclone.psyir import nodes as N
+    from psyclone.psyir.symbols import ArrayType
+    if isinstance(node, N.Literal):
+        return int(node.value)
+    if isinstance(node, N.UnaryOperation) and node.operator == N.UnaryOperation.Operator.MINUS:
+        return -_const(node.children[0])
+    if isinstance(node, N.BinaryOperation) and node.operator.name in ("ADD", "SUB", "MUL"):
+        a, b = _const(node.children[0]), _const(node.children[1])
+        return {"ADD": a + b, "SUB": a - b, "MUL": a * b}[node.operator.name]
+    if isinstance(node, N.IntrinsicCall) and node.intrinsic.name in ("LBOUND", "UBOUND"):
+        sym = node.arguments[0].symbol
+        dim = _const(node.arguments[1]) - 1
+        shape = sym.datatype.shape[dim]
+        if isinstance(shape, ArrayType.ArrayBounds):
+            return _const(shape.lower if node.intrinsic.name == "LBOUND" else shape.upper)
+    raise Unsupported("section bound is not a compile-time constant: " + node.debug_string())
+
+
+def _sections(ref):
+    """[(position, start, step, count)] of the Range subscripts of an array reference"""
+    from psyclone.psyir import nodes as N
+    out = []
+    for pos, idx in enumerate(ref.indices):
+        if isinstance(idx, N.Range):
+            lo, hi, st = _const(idx.start), _const(idx.stop), _const(idx.step)
+            if st == 0:
+                raise Unsupported("zero stride")
+            out.append((pos, lo, st, max(0, (hi - lo + st) // st) if st > 0 else max(0, (lo - hi - st) // (-st))))
+    return out
+
+
+def _expand_section_assignment(node, names):
+    """Fortran array assignment: every element of the RHS is evaluated before any element is stored.
+    Exported as  tmp(e) = rhs_e  for all e, then  lhs_e = tmp(e)  for all e."""
+    import itertools
+    from psyclone.psyir import nodes as N
+    from psyclone.psyir.symbols import INTEGER_TYPE
+    lsec = _sections(node.lhs)
+    counts = [c for _, _, _, c in lsec]
+    if not 1 <= len(counts) <= 2:
+        raise Unsupported("array assignment with %d section dimensions" % len(counts))
+    tmp = names.id("sec__tmp")
+    first, second = [], []
+    for e in itertools.product(*[range(c) for c in counts]):
+        copy = node.copy()
+        for ref in [r for r in copy.walk(N.ArrayReference) if any(isinstance(i, N.Range) for i in r.indices)]:
+            sec = _sections(ref)
+            if [c for _, _, _, c in sec] != counts:
+                raise Unsupported("non-conformable sections in " + node.debug_string())
+            for (pos, lo, st, _), ek in zip(sec, e):
+                ref.children[pos].replace_with(N.Literal(str(lo + ek * st), INTEGER_TYPE))
+        if any(isinstance(r, N.Range) for r in copy.walk(N.Range)):
+            raise Unsupported("section outside an array reference")
+        te = [["lit", x] for x in e] + ([["lit", 0]] if len(e) == 1 else [])
+        first.append(["store2", tmp, te[0], te[1], minif.export_expr(copy.rhs, names)])
+        lhs = minif.export_stmt(N.Assignment.create(copy.lhs.copy(), N.Literal("0", INTEGER_TYPE)), names)
+        second.append(lhs[:-1] + [["idx2", tmp, te[0], te[1]]])
+    return ["seqs"] + first + second
+
+
+def export_routine(routine, names):
+    """MiniF export of a routine body; LBOUND/UBOUND of declared constant bounds are folded first
+    (array notation lowered by preprocess_trans produces `do idx = LBOUND(a,1), UBOUND(a,1)`)"""
+    from psyclone.psyir import nodes as N
+    from psyclone.psyir.symbols import INTEGER_TYPE
+    work = routine.copy()
+    for call in work.walk(N.IntrinsicCall):
+        if call.intrinsic.name in ("LBOUND", "UBOUND") and call.parent is not None:
+            try:
+                call.replace_with(N.Literal(str(_const(call)), INTEGER_TYPE))
+            except (Unsupported, ValueError, AttributeError, IndexError, TypeError):
+                pass
+    return export_x(list(work.children), names)
+
+
+def export_x(node, names):
+    """minif.export_stmt plus array-section assignments (constant section bounds)"""
+    from psyclone.psyir import nodes as N
+    if isinstance(node, (list, tuple)):
+        return ["seqs"] + [export_x(c, names) for c in node]
+    if isinstance(node, N.Schedule):
+        return export_x(list(node.children), names)
+    if isinstance(node, N.Assignment) and node.walk(N.Range):
+        return _expand_section_assignment(node, names)
+    if isinstance(node, N.IfBlock):
+        els = export_x(node.else_body, names) if node.else_body is not None else ["skip"]
+        return ["ite", minif.export_expr(node.condition, names), export_x(node.if_body, names), els]
+    if isinstance(node, N.Loop):
+        return ["loop", names.id(node.variable.name), minif.export_expr(node.start_expr, names),
+                minif.export_expr(node.stop_expr, names), minif.export_expr(node.step_expr, names),
+                export_x(node.loop_body, names)]
+    return minif.export_stmt(node, names)
+
+
 class Result:
     pass
 
 
-def pipeline(src, active, want_test=False, use_api=True):
+def pipeline(src, active, want_test=False, use_api=True, extra_refusals=()):
     """Run the real code.  Result fields: status 'ok'|'refused'|'crashed', exc, names, tl_minif,
     tlpp_minif, ad_minif, tl_form/ad_form (or None with form_why), ad_str, api_matches, test_str.
     `use_api=False` skips the (duplicate) call of generate_adjoint_str and only replays its steps."""
@@ -164,7 +262,7 @@ def pipeline(src, active, want_test=False, use_api=True):
     from psyclone.psyad.transformations.preprocess import preprocess_trans
     from psyclone.psyad.transformations import TangentLinearError
     from psyclone.psyir.backend.visitor import VisitorError
-    refusals = (TangentLinearError, VisitorError, NotImplementedError)
+    refusals = (TangentLinearError, VisitorError, NotImplementedError) + tuple(extra_refusals)
     res = Result()
     res.names = minif.Names()
     active = [a.lower() for a in active]
@@ -177,7 +275,7 @@ def pipeline(src, active, want_test=False, use_api=True):
     # the original routine (before preprocessing) as MiniF
     orig = FortranReader().psyir_from_source(src)
     try:
-        res.tl_minif = minif.export_stmt(orig.walk(Routine)[0].children, res.names)
+        res.tl_minif = export_routine(orig.walk(Routine)[0], res.names)
     except Unsupported as e:
         res.form_why = "Unsupported: " + str(e)
     if use_api:
@@ -193,7 +291,7 @@ def pipeline(src, active, want_test=False, use_api=True):
         preprocess_trans(tl, active)
         tl_routine = tl.walk(Routine)[0]
         try:
-            res.tlpp_minif = minif.export_stmt(tl_routine.children, res.names)
+            res.tlpp_minif = export_routine(tl_routine, res.names)
             res.prelude, res.tl_form = lin_routine(tl_routine.children, active, res.names)
         except (NotLinear, OutsideModel, Unsupported) as e:
             res.form_why = type(e).__name__ + ": " + str(e)
@@ -209,16 +307,26 @@ def pipeline(src, active, want_test=False, use_api=True):
     except Exception as e:      # noqa
         res.status, res.exc = "crashed", type(e).__name__ + ": " + str(e)[:200]
         return res
+    try:
+        written = FortranWriter()(ad)
+    except refusals as e:
+        # generate_adjoint_str writes the adjoint as its last step: a failing writer is its refusal too
+        if use_api:
+            res.status, res.exc = "crashed", "writer refuses but the API did not: " + str(e)[:200]
+        else:
+            res.status, res.exc = "refused", type(e).__name__ + ": " + str(e)[:200]
+        return res
     if use_api:
-        res.api_matches = (FortranWriter()(ad) == res.ad_str)
+        res.api_matches = (written == res.ad_str)
     else:
-        res.ad_str = FortranWriter()(ad)
+        res.ad_str = written
     ad_routine = ad.walk(Routine)[0]
     _replace_codeblocks(ad_routine)
     try:
-        res.ad_minif = minif.export_stmt(ad_routine.children, res.names)
+        res.ad_minif = export_routine(ad_routine, res.names)
     except Unsupported as e:
-        res.status, res.exc = "crashed", "adjoint not exportable: " + str(e)
+        # a limit of the exporter, not of PSyAD: the caller counts the kernel as unexportable
+        res.ad_minif, res.form_why = None, "adjoint not exportable: " + str(e)
         return res
     if res.tl_form is not None:
         try:
@@ -245,6 +353,14 @@ def bindings(kern, names, active_vals=None):
 
 
 def active_locs(kern, names, a_lo, a_hi, m_lo, m_hi):
+    import itertools
+    dims = getattr(kern, "dims", None)
+    if dims:
+        locs = []
+        for name in kern.scalars + kern.arrays1 + kern.arrays2:
+            rs = [range(lo, hi + 1) for lo, hi in dims.get(name, [])]
+            locs += [(names.id(name),) + t for t in itertools.product(*rs)]
+        return locs
     locs = [(names.id(s),) for s in kern.scalars]
     for a in kern.arrays1:
         locs += [(names.id(a), i) for i in range(a_lo, a_hi + 1)]
